@@ -905,6 +905,12 @@ def check_C18(tr):
     return bad
 
 
+def check_hint(tr):
+    """the `size_hint` of a chunk's value iterator never contradicts its `len()` (lower bound <= len <= upper bound) at any point
+    the harness looks (the harness logs a `hint-mismatch` line otherwise)"""
+    return ["chunk iterator: %s (line %d)" % (" ".join(l.split()[1:]), i) for i, l in enumerate(tr.lines) if " hint-mismatch " in l]
+
+
 def check_wrapper_nth(tr):
     """single-threaded cases with `values().nth(k)` / `ids_and_values().nth(k)`: std's default `nth` is k+1 calls of the
     wrapper's `next` -- k single pulls discarded, the next one returned, stopping at the first end; a sequential cursor
@@ -974,12 +980,12 @@ def check_C19(tr):
 
 
 def _with_nth(f):
-    return lambda tr: f(tr) + check_wrapper_nth(tr)
+    return lambda tr: f(tr) + check_wrapper_nth(tr) + check_hint(tr)
 
 
 MONITORS = {
     "C19": check_C19,
-    "C01": _with_nth(check_C01), "C02": _with_nth(check_C02), "C03": check_C03, "C04": _with_nth(check_C04), "C05": check_C05,
+    "C01": _with_nth(check_C01), "C02": _with_nth(check_C02), "C03": (lambda tr: check_C03(tr) + check_hint(tr)), "C04": _with_nth(check_C04), "C05": check_C05,
     "C06": check_C06, "C07": check_C07, "C08": check_C08, "C09": check_C09, "C10": check_C10,
     "C11": check_C11, "C12": check_C12, "C15": check_C15, "C16": check_C16, "C18": check_C18,
 }
